@@ -18,11 +18,11 @@ MODEL_EXTRA = ["e", "f", "g"]
 COLL_KEYS = ["m", "n", "k", "q", "r", "s"]
 NPRIORS = 14
 SETITEM_TRANSFERS = False  # /repo since 6df133a: no id transfer to an object handed in by the caller (Model.v: setitem_transfers)
-# the three proposed repairs of the remaining findings (proposed_fixes/C13-delattr-guard, -tuple-prior-frozen,
-# -cache-modification-count); not applied to /repo: flip together with the constants of the same meaning in coq/C13/Model.v
-DELATTR_GUARDED = False    # Model.v: delattr_guarded
-TUPLES_FROZEN = False      # Model.v: tuples_frozen
-CACHE_COUNTS = False       # Model.v: cache_counts_modifications (needs the other two)
+# /repo since 6ba0708, b49160e, 29fc8b9 (proposed_fixes/C13-delattr-guard, -tuple-prior-frozen, -cache-modification-count);
+# same meaning as the constants of coq/C13/Model.v
+DELATTR_GUARDED = True    # Model.v: delattr_guarded
+TUPLES_FROZEN = True      # Model.v: tuples_frozen
+CACHE_COUNTS = True       # Model.v: cache_counts_modifications (needs the other two)
 DERIVE_THAWS = False       # /repo since b8214a7: prior passing unfreezes its copy, not self (Model.v: derive_thaws)
 
 
@@ -756,7 +756,7 @@ def gen_cases(ctx):
         for f in sorted(os.listdir(cdir)):
             if f.endswith(".json"):
                 c = json.load(open(os.path.join(cdir, f)))
-                cases.append(dict(c.get("case", c), origin="corpus", name=f))
+                cases.append(dict(c.get("case", c), origin="corpus", name=f, signature=c.get("signature")))
     for i in range(n):
         x = ctx.rng.random()
         mode = "clean" if x < 0.55 else "stale" if x < 0.78 else "ids" if x < 0.90 else "poison"
@@ -1042,7 +1042,9 @@ def run(ctx):
                 "vector, all_paths, info, models_with_type] / freeze / unfreeze / setattr (incl. self-reference) / Collection.__setitem__ "
                 "(new and existing keys) / append / delattr / deepcopy and pickle round trip / prior passing (mapper_from_prior_arguments) / "
                 "failing walk call) over a heap of Model, Collection and TuplePrior objects with shared children and several roots; modes: "
-                "'clean' (nothing is modified below a frozen object, no id transfer, no thawing derive), 'stale', 'ids', 'poison'; a case is "
+                "'clean' (nothing is attempted below a frozen object), 'stale' (modifications, deletions, tuple members and thawed "
+                "components below frozen ancestors), 'ids' (item assignment of shared priors over existing keys), 'poison' (failing "
+                "calls); since 29fc8b9 no mode has a finding label and every history is checked against the full theorem; a case is "
                 "non-trivial when some query comes after a freeze and after a later set/setitem/append/del/unfreeze/copy/derive/failing call; "
                 "distinct = distinct abstract history")
     ctx.trusted = [
@@ -1060,8 +1062,8 @@ def run(ctx):
         "(the driver keeps every object alive and clears the recursion cache between histories)",
         "all seven frozen_cache functions are exercised; uniform priors with integer limits whose width is a multiple of 4 and units k/4 "
         "(exact arithmetic); assertions, Collection.remove, take_attributes, __add__, list/dict/int valued attributes are not generated",
-        "the reference (Mirror) treats prior ids as immutable and frozen flags as untouched by prior passing: the two places where the "
-        "code does otherwise are the recorded findings; answers equal to a stale snapshot are not distinguished from other wrong answers",
+        "the reference (Mirror) treats prior ids as immutable, frozen flags as untouched by prior passing, TuplePriors as frozen with "
+        "their owner and deletions as guarded; the six places where the code once did otherwise are repaired and pinned in corpus/C13",
     ]
     built = ctx.build()
     cases = gen_cases(ctx)
@@ -1108,9 +1110,16 @@ def run(ctx):
         if i % 53 == 0:
             ctx.sample({"ops": c["ops"][:14], "origin": c.get("origin")}, limit=6)
     if not ctx.replay:
-        ncorpus = sum(1 for c in cases if c.get("origin") == "corpus")
-        ctx.obligation("regression:former-findings", "regression", ncorpus >= 3 and not regress,
-                       "; ".join(regress) if regress else "%d pinned histories of repaired findings answer like the reference" % ncorpus)
+        # one obligation per repaired finding: its pinned history must answer like the reference
+        pinned = {}
+        for c in cases:
+            if c.get("origin") == "corpus":
+                pinned.setdefault(c.get("signature") or c.get("name"), []).append(c.get("name"))
+        for sig in sorted(pinned):
+            bad_here = [m for m in regress if m.split(":")[0] in pinned[sig]]
+            ctx.obligation("regression:" + sig, "regression", not bad_here,
+                           "; ".join(bad_here) if bad_here else "pinned history %s answers like the reference" % ", ".join(pinned[sig]))
+        ctx.obligation("regression:all-six-pinned", "regression", len(pinned) >= 6, "%d pinned former findings" % len(pinned))
     if os.path.exists(os.path.join(common.COQ, "C13", "Model.vo")):
         bad, log = ctx.eval_cases(HEADER, "case", "check_case", coq_cases, shard=40 if ctx.tier == "quick" else 120)
         for b in (bad or [])[:5]:
@@ -1140,14 +1149,14 @@ def run(ctx):
 
 
 MANIFEST = {
-    "text": "Coq 8.16 theorems over an executable heap model of Model/Collection/TuplePrior objects with frozen_cache, assert_not_frozen, "
-            "recursive freeze/unfreeze, deepcopy, prior passing, Collection.__setitem__ id transfer and the process-wide recursion cache: "
-            "every query of every guarded history equals the uncached query on the current composition (guard: nothing reachable from a "
-            "frozen object changes composition or prior ids; decidable, checked on every label-free generated history); freeze reaches "
-            "every Model/Collection descendant, which then reject setattr/append/setitem; setattr is local; the unguarded statements "
-            "(stale ancestor, tuple members, item assignment rewriting shared ids, prior passing thawing components) are refuted by "
-            "witnesses and recorded as findings; plus vm_compute correspondence of the model with the running code on generated "
-            "histories and a direct oracle against a cache-free reference",
+    "text": "Coq 8.16 theorems over an executable heap model of Model/Collection/TuplePrior objects with frozen_cache (incl. the "
+            "modification counter), assert_not_frozen on setattr/delattr/append/setitem/remove, recursive freeze/unfreeze reaching "
+            "tuple priors, deepcopy, prior passing, item assignment and the process-wide recursion cache: for the code as it is, "
+            "every query of EVERY history equals the uncached query on the current composition (C13_coherent_full, no guard); freeze "
+            "reaches every Model/Collection/TuplePrior descendant, which then reject assignment and deletion; setattr / setitem are "
+            "local; prior passing is a query; the six former defects are kept as legacy refutations and pinned as regression "
+            "histories; plus vm_compute correspondence of the model with the running code on generated histories and a direct "
+            "oracle against a cache-free reference",
     "note": "Trusted: Coq kernel + vm_compute, the abstraction in harness/vcheck/c13.py and harness/impl/c13_impl.py. Object identity is "
             "abstract (id() reuse not modelled), walk fuel 12, info is compared through the lists it is rendered from.",
     "technique": "machine-checked proof in Coq (state-machine model, invariant) + vm_compute correspondence",
